@@ -127,6 +127,10 @@ MARKUPISH = ["[info]", "[/b]", "[bold]x[/bold]", "[red]", "[/]", "\\[", ":smile:
 OTHER_CSI = ["\x1b[2K", "\x1b[1A", "\x1b[?25l", "\x1b[10;20H", "\x1b[K", "\x1b[2J"]
 
 
+HIGHLIGHTISH = ["12345", " 3.14 ", "True", "None", "'quoted string'", "http://example.org/x?y=1", "<Tag attr=1>",
+                "/usr/lib/file.py", "key=value", "0xff", "(1, 2)", "127.0.0.1", "1e10", "b'x'", "Tag(x=1)", "{'k': [1, None]}"]
+
+
 def gen_stream(rng):
     w = S.pick_weights(rng)
     S.drop_zero(w)
@@ -165,7 +169,9 @@ def gen_stream(rng):
                 parts.append("\x1b]8;;%s\x1b\\" % url + pre + text + suf + tail + "\x1b]8;;\x1b\\")
                 features.add("reset_inside_link")
             elif r < 0.90:
-                parts.append(rng.choice(MARKUPISH))
+                # (text a console would treat specially if it were not told otherwise: markup tags, emoji codes - and
+                # what the default highlighter colours: numbers, constants, quoted strings, URLs, paths, tags, key=value)
+                parts.append(rng.choice(MARKUPISH + HIGHLIGHTISH))
                 features.add("markupish")
             elif r < 0.95:
                 parts.append(rng.choice(OTHER_CSI) + text)
